@@ -64,6 +64,13 @@ Table == <<
 GroupGates == {"RX", "RY", "RZ", "RH", "PHASE", "CPHASE", "XX", "YY", "ZZ", "XY"}
 ByName(n) == LET i == CHOOSE j \in 1..Len(Table) : Table[j].name = n IN Table[i]
 
+\* the polynomial matrix of one gate WITHOUT building the whole table (TLC re-evaluates `Table`, with all its
+\* polynomial products, on every reference)
+PolyOf(n) ==
+  CASE n = "X" -> XM [] n = "Y" -> YM [] n = "Z" -> ZM [] n = "H" -> HM [] n = "I" -> IM [] n = "S" -> SM [] n = "SX" -> SXM [] n = "T" -> TM
+    [] n = "RX" -> RXM [] n = "RY" -> RYM [] n = "RZ" -> RZM [] n = "RH" -> RHM [] n = "PHASE" -> PHASEM [] n = "U3" -> U3M
+    [] n = "GPi" -> GPiM [] n = "GPi2" -> GPi2M [] n = "CNOT" -> CNOTM [] n = "CZ" -> CZM [] n = "SWAP" -> SWAPM [] n = "ISWAP" -> ISWAPM
+    [] n = "CPHASE" -> CPHASEM [] n = "XX" -> XXM [] n = "YY" -> YYM [] n = "ZZ" -> ZZM [] n = "XY" -> XYM [] n = "MS" -> MSM [] n = "Delay" -> IM
 \* the exact matrix of gate `name` at parameters k_j * pi/2
-GateAt(name, k) == PMEvalW(ByName(name).poly, <<k[1], k[2], k[3]>>)
+GateAt(name, k) == PMEvalW(PolyOf(name), <<k[1], k[2], k[3]>>)
 =============================================================================
